@@ -53,6 +53,29 @@ XmiItems(sg) ==
       offs   == [i \in DOMAIN ev |-> IF i \in ons THEN << [tick |-> XTick(ev, i) + ev[i][2].dur, key |-> <<8, ev[i][2].ch, <<ev[i][2].n>>>>, src |-> i, syn |-> TRUE] >> ELSE <<>>]
   IN FlattenSeq(direct) \o FlattenSeq(offs)
 
+(* ---- the player session: several music files opened one after the other on ONE player ----
+   What is loaded is the LAST file handed to the player, if it was accepted - never anything of an earlier file.  The player
+   keeps one number besides the file: the song selection (opn2_selectSongNum), which outlives the files.
+     kind, ok, n   the last file: its format, whether it was accepted, its number of sequences (XMI; other formats: 1)
+     req           the number of the last selection request (0 when there was none)
+     kept          the readings of "the selected song" the interface leaves open: a request that lies outside the range of a
+                   file is answered with that file's nearest song; whether a LATER file is then entered with the request or
+                   with the answered number is not defined (header: "will be started from the selected number") - both are
+                   kept.  A request that is in range for every file it meets has exactly one reading.
+   A file the formats do not define (cut short, overwritten: kind "undefined") may be accepted or rejected; nothing is said
+   about its playback, only the song count m the player reports afterwards is used to keep the readings complete.            *)
+Sess0 == [kind |-> "none", ok |-> FALSE, n |-> 0, req |-> 0, kept |-> {0}]
+ClampAll(S, n) == { Clamp(c, 0, n - 1) : c \in S }
+SessXmi(S) == S.ok /\ S.kind = "xmi"
+SessSelect(S, k) == [S EXCEPT !.req = k, !.kept = IF SessXmi(S) THEN {Clamp(k, 0, S.n - 1)} ELSE {k}]
+SessLoad(S, kind, n, ok) == [S EXCEPT !.kind = kind, !.ok = ok, !.n = IF ok THEN n ELSE 0,
+                                      !.kept = IF ok /\ kind = "xmi" THEN ClampAll(@, n) ELSE @]
+SessLoadUndefined(S, m) == [S EXCEPT !.kind = "undefined", !.ok = FALSE, !.n = 0, !.kept = IF m >= 1 THEN @ \cup ClampAll(@, m) ELSE @]
+\* opn2_getSongsCount: the sequences of the loaded XMI file; "1 or less" = a file with one song (or no file)
+SessCountOK(S, c) == IF SessXmi(S) THEN c = S.n ELSE c \in {0, 1}
+\* the songs (0-based) a play of the loaded file may deliver
+SessSongs(S) == IF SessXmi(S) THEN ClampAll(S.kept \cup {S.req}, S.n) ELSE {0}
+
 \* ---- byte layout (IFF: big-endian chunk lengths, chunks padded to even length) ----
 BE32(v) == <<v \div 16777216, (v \div 65536) % 256, (v \div 256) % 256, v % 256>>
 XLE16(v) == <<v % 256, v \div 256>>
